@@ -143,3 +143,19 @@ def run(tier, seed, escalate=False):
     res = merge_oracle(res, f, n, "storage_dtype_variants")
     f, n = history_independence("C09", DTYPE_CASES, seed)
     return merge_oracle(res, f, n, "call_history_cases")
+
+
+# ------------------------------------------------------------------ the same argument values in another container / number type
+from oracles import argform_independence
+ARGFORM_CASES = [("ft-flags", "t2", [(lab, (lambda s, c: lambda d, dim: dnp.fourier_transform(d, dim, shift=s, convert_to_ppm=c))(s, c)) for lab, s, c in (
+        ("bool", True, False), ("numpy-bool", np.bool_(True), np.bool_(False)), ("ints", 1, 0))]),
+    ("ft-zero-fill", "t2", [(lab, (lambda z: lambda d, dim: dnp.fourier_transform(d, dim, zero_fill_factor=z))(z)) for lab, z in (
+        ("int", 2), ("numpy-int", np.int64(2)), ("numpy-int32", np.int32(2)))])]
+_run_before_argform = run
+
+
+def run(tier, seed, escalate=False):
+    """… plus: sequence arguments as tuple / list / ndarray, numbers as Python / NumPy scalars, flags as bool / numpy.bool_ / 0-1"""
+    res = _run_before_argform(tier, seed, escalate)
+    f, n = argform_independence("C09", ARGFORM_CASES, seed)
+    return merge_oracle(res, f, n, "argument_form_variants")
